@@ -722,7 +722,7 @@ func (e *Env) callExpr(x ECall) Term {
 		argn(1)
 		key := exprString(x.Args[0])
 		return fv.ghostTerm(e.st, "log."+key+".n", SMath)
-	case "fabs", "fisnan", "fisinf", "flt", "fle", "feq", "f32", "f64", "fconst", "ftoi64":
+	case "fabs", "fisnan", "fisinf", "flt", "fle", "feq", "f32", "f64", "fconst", "ftoi64", "itof64", "fadd", "fmul":
 		return e.floatBuiltin(x)
 	case "callseq":
 		// callseq(K, i): position of the i-th logged call of K in the global order of logged calls
@@ -1373,6 +1373,7 @@ func replaceToken(s, tok, by string) string {
 // any other function they are uninterpreted symbols (same name, same
 // arguments, hence congruent).
 //   fabs(x) fisnan(x) fisinf(x, sign) flt(a,b) fle(a,b) feq(a,b) f32(x) f64(x) fconst("1e-6", 64)
+//   ftoi64(x) itof64(n) fadd(a,b) fmul(a,b)
 func (e *Env) floatBuiltin(x ECall) Term {
 	fv := e.fv
 	arg := func(i int) Term {
@@ -1428,6 +1429,19 @@ func (e *Env) floatBuiltin(x ECall) Term {
 			fv.declareFun(fn, ss, "Bool")
 		}
 		return Term{S: app(fn, a.S, b.S), Sort: SBool}
+	case "itof64":
+		// the conversion float64(n) of the code for an integer n
+		return fv.floatOp("fconv", types.Typ[types.Float64], e.coerce(e.eval(x.Args[0]), SInt))
+	case "fadd", "fmul":
+		a, b := arg(0), arg(1)
+		if a.Sort.W != b.Sort.W {
+			e.fail("%s: operands of different width", x.Fn)
+		}
+		gt := types.Type(types.Typ[types.Float64])
+		if a.Sort.W == 32 {
+			gt = types.Typ[types.Float32]
+		}
+		return fv.floatOp(x.Fn, gt, a, b)
 	case "ftoi64":
 		// the conversion int64(x) of the code (truncation toward zero; uninterpreted outside `flag fp`)
 		return fv.floatOp("fconv", types.Typ[types.Int64], arg(0))
@@ -1453,12 +1467,18 @@ func (e *Env) floatBuiltin(x ECall) Term {
 			gt = types.Typ[types.Float32]
 		}
 		s := fv.sortOf(gt)
-		name := "fconst_" + sanitize(strings.NewReplacer("+", "p", "-", "m", ".", "d").Replace(fmt.Sprintf("%d_%s", wl.V, lit.V)))
+		v := constant.MakeFromLiteral(lit.V, token.FLOAT, 0)
+		if v.Kind() == constant.Unknown {
+			e.fail("fconst: bad literal %q", lit.V)
+		}
+		// named by value, like the constants of the code, so that equal constants are one symbol
+		f, _ := constant.Float64Val(v)
+		if wl.V == 32 {
+			f32, _ := constant.Float32Val(v)
+			f = float64(f32)
+		}
+		name := "fconst_" + sanitize(strings.NewReplacer("+", "p", "-", "m", ".", "d").Replace(fmt.Sprintf("%d_%g", wl.V, f)))
 		if fv.fp {
-			v := constant.MakeFromLiteral(lit.V, token.FLOAT, 0)
-			if v.Kind() == constant.Unknown {
-				e.fail("fconst: bad literal %q", lit.V)
-			}
 			fv.ensureSort(s)
 			fv.fpDefine(name, nil, s.smt(fv.Mode), fpLiteral(v, int(wl.V)))
 		} else {
